@@ -251,16 +251,20 @@ def _difference_groups(keys, vs):
                 break
         else:
             groups.append([e, integer_valued(e), [(k, 0)]])
+    # a member that cannot be negative (a length, an absolute value, a sum of such) bounds the base from below
+    for grp in groups:
+        lows = [-c for k, c in grp[2] if not vs[k][1].is_array() and vs[k][1].is_nonneg()]
+        grp.append(max(lows) if lows else None)
     return groups
 
 
 def _group_rows(grp):
     """All consistent sign vectors of one difference group, as dicts key -> sign."""
-    base, integral, members = grp
+    base, integral, members, low = grp
     if len(members) == 1:
         k = members[0][0]
-        return [{k: NEG}, {k: ZERO}, {k: POS}]
-    ths = sorted({-c for _k, c in members})
+        return [{k: NEG}, {k: ZERO}, {k: POS}] if low is None else [{k: ZERO}, {k: POS}]
+    ths = sorted({-c for _k, c in members} | ({low} if low is not None else set()))
     # sample points: one per threshold, one per non-empty open interval
     pts = [ths[0] - 1]
     for a, b in zip(ths, ths[1:]):
@@ -272,6 +276,8 @@ def _group_rows(grp):
     pts.append(ths[-1] + 1)
     rows = []
     for x in pts:
+        if low is not None and x < low:
+            continue
         row = {}
         for k, c in members:
             v = x + c
